@@ -183,6 +183,12 @@ static void c09_case (long idx, vf_rng *r)
     rq_request base; rq_generate (r, &base, RQP_NARROW_ONLY | RQP_NO_INDEXED | RQP_NO_ALPHAMAP | RQP_NO_ACCESSORS | RQP_NO_GRADIENT);
     base.op = op;
     if (role == 1) { if (!base.has_mask) { base.has_mask = 1; rq_gen_image (r, &base.mask, 1, RQP_NARROW_ONLY | RQP_NO_INDEXED | RQP_NO_ALPHAMAP | RQP_NO_ACCESSORS | RQP_NO_GRADIENT); } }
+    /* a fifth of the mask cases: the plain full-colour pairing (untransformed a8r8g8b8 source, mask and destination, OVER) that the x86 chains
+     * serve with dedicated routines working on aligned groups of pixels */
+    int plain8888 = role == 1 && vf_chance (r, 1, 5);
+    if (plain8888) { base.op = op = PIXMAN_OP_OVER; rq_image *im3[3] = { &base.src, &base.mask, &base.dst };
+        for (int i = 0; i < 3; i++) { rq_image *im = im3[i]; int w0 = base.dst.w, h0 = base.dst.h; memset (im, 0, sizeof *im); im->kind = RQ_BITS; im->fmt = PIXMAN_a8r8g8b8; im->w = w0 > 0 ? w0 : 8; im->h = h0 > 0 ? h0 : 2; im->tr_class = TR_NONE; pixman_transform_init_identity (&im->tr); im->filter = PIXMAN_FILTER_NEAREST; im->pixseed = vf_next (r); }
+        base.sx = base.sy = base.mx = base.my = base.dx = base.dy = 0; base.w = base.dst.w; base.h = base.dst.h; base.cover = 1; }
     rq_image *target = role == 0 ? &base.src : role == 1 ? &base.mask : &base.dst;
     if (target->kind != RQ_BITS) { target->kind = RQ_BITS; target->w = (int)vf_range (r, 1, 30); target->h = (int)vf_range (r, 1, 8); target->tr_class = TR_NONE; pixman_transform_init_identity (&target->tr); target->filter = PIXMAN_FILTER_NEAREST; target->repeat = (int)(vf_next (r) % 4); }
     /* user kernels need not be normalised: give separable tables a gain != 1 now and then */
@@ -205,7 +211,7 @@ static void c09_case (long idx, vf_rng *r)
     uint64_t cseed = vf_next (r);
     /* which presentations take part */
     int pres[4], np = 0; int constant = 0, use565 = 0;
-    int group = (int)(vf_next (r) % (role == 2 ? 1 : 3));
+    int group = (int)(vf_next (r) % (role == 2 ? 1 : 3)); if (plain8888) group = 0;
     if (group == 0) { pres[np++] = P_X888; pres[np++] = P_A888_FF; }
     else if (group == 1) {
         use565 = 1;
